@@ -45,6 +45,22 @@ func runC05(w *core.World, r *core.Report) {
 	// ---- R1 / R2 (LOAD) -----------------------------------------------------------------------
 	if h := handlerByName(w, r, "LOAD"); h != nil {
 		ic := callsToSet(h, inv)
+		// the handler may be split in a decoding stage and an executing stage: look at the stage that
+		// calls the external code, when it is a method only the handler calls
+		if len(ic) == 0 {
+			for _, c := range core.Calls(h) {
+				g := core.StaticCallee(c)
+				if g == nil || core.PkgOf(g) != "vm" || len(g.Blocks) == 0 || len(callsToSet(g, inv)) == 0 {
+					continue
+				}
+				sites, escapes := staticCallSites(w, g)
+				if escapes || len(sites) != 1 {
+					continue
+				}
+				h = g
+				ic = callsToSet(h, inv)
+			}
+		}
 		gets := core.CallsTo(h, memGet, "cache.(*Cache).Get")
 		if len(ic) == 0 {
 			r.Bad("R1", "LOAD handler: invoker call", h.Pos(), "the LOAD handler does not call the external-code invoker")
@@ -54,7 +70,7 @@ func runC05(w *core.World, r *core.Report) {
 			okKey := false
 			for _, g := range gets {
 				a := core.CallArgs(g)
-				if len(a) >= 2 && fromResult(a[1], 0, "vm.ParseLoad") {
+				if len(a) >= 2 && fromResultVia(w, h, a[1], 0, "vm.ParseLoad") {
 					okKey = true
 					cut.AddEdge(errNonNilEdges(callErr(g))...)
 				}
@@ -68,14 +84,14 @@ func runC05(w *core.World, r *core.Report) {
 			if len(args) != 4 {
 				continue
 			}
-			okSym := fromResult(args[1], 0, "vm.ParseLoad")
+			okSym := fromResultVia(w, h, args[1], 0, "vm.ParseLoad")
 			okVal := false
 			for _, s := range core.Sources(args[2]) {
 				if c, i, ok := core.ExtractOf(s); ok && i == 0 && inv[core.StaticCallee(c)] {
 					okVal = true
 				}
 			}
-			okLim := fromResult(args[3], 1, "vm.ParseLoad")
+			okLim := fromResultVia(w, h, args[3], 1, "vm.ParseLoad")
 			r.Check(okSym && okVal && okLim, "R2", "LOAD handler "+core.QName(h)+": Add operands", a.Pos(), "Add(decoded sym, invoker result, decoded size)",
 				fmt.Sprintf("Add operands are not (decoded symbol, invoker result, decoded size): sym=%v value=%v limit=%v", okSym, okVal, okLim))
 		}
